@@ -242,6 +242,21 @@ def run_shard(shard):
             have = np.isfinite(lo) and np.isfinite(hi)
         return n
 
+    def bound_repr(v, key):
+        """How an end of the initial interval is handed to the constructor: integer-valued ends also as a python int or an
+        integer array (the interval is the same set of reals; the annotation is Real[Array, ''])."""
+        if float(v).is_integer() and abs(v) < 2**31:
+            import zlib
+
+            k = zlib.crc32(repr(key).encode()) % 4
+            if k == 1:
+                counters["bounds_given_as_python_int"] = counters.get("bounds_given_as_python_int", 0) + 1
+                return int(v)
+            if k == 2:
+                counters["bounds_given_as_int_array"] = counters.get("bounds_given_as_int_array", 0) + 1
+                return jnp.asarray(int(v))
+        return fdt(v)
+
     def scalar_case(fam, p, r, lo, hi, tol, max_iter):
         case = {"kind": "scalar", "fam": fam, "p": p, "root": r, "lower": lo, "upper": hi, "tol": tol,
                 "max_iter": max_iter, "x64": x64}
@@ -255,7 +270,7 @@ def run_shard(shard):
         if not np.isfinite(yv):
             cases.discard(key)
             return
-        inv = AutoregressiveBisectionInverter(lower=fdt(lo), upper=fdt(hi), tol=tol, max_iter=max_iter)
+        inv = AutoregressiveBisectionInverter(lower=bound_repr(lo, key), upper=bound_repr(hi, key), tol=tol, max_iter=max_iter)
         W0 = hi - lo
         dist = max(0.0, lo - r, r - hi)
         bound = step_bound(W0, dist, max_iter)
@@ -318,7 +333,7 @@ def run_shard(shard):
         fn = Fn(jnp.asarray(P, dtype=fdt), jnp.asarray(A, dtype=fdt), tuple(fams), (dim,))
         rj = jnp.asarray(r, dtype=fdt)
         y = forward(fn, rj)
-        inv = AutoregressiveBisectionInverter(lower=fdt(lo), upper=fdt(hi), tol=tol, max_iter=max_iter)
+        inv = AutoregressiveBisectionInverter(lower=bound_repr(lo, key), upper=bound_repr(hi, key), tol=tol, max_iter=max_iter)
         W0 = hi - lo
         rr = np.asarray(rj, dtype=np.float64)
         dists = np.maximum(0, np.maximum(lo - rr, rr - hi))
